@@ -836,7 +836,11 @@ fn create_archive(
         return Ok(());
     }
 
-    Ok(())
+    // The legacy batch compressor is no longer wired into the CLI. Falling through to
+    // Ok(()) here made `create --batch` exit 0 without writing any archive.
+    anyhow::bail!(
+        "--batch (legacy batch mode) is not available in this build; run without --batch to use the streaming queue mode"
+    )
 }
 
 fn write_bin<P: AsRef<Path>>(path: P, data: &[u8]) -> Result<()> {
